@@ -31,11 +31,13 @@ VARIABLES sid,      \* index into ScenTab
           kf,       \* per thread: thread-local "key taken" flag (src/key.rs KeyCell)
           val,      \* per leaf: protected value (number of writes so far)
           pflag,    \* per collection: poison flag of a Poisonable wrapper (FALSE for other kinds)
+          killed,   \* per leaf: the lock's own PoisonFlag ("killed": a raw operation of it panicked)
+          nops,     \* number of raw lock operations performed so far (only counted under a one-shot fault plan)
           mon,      \* monitor state (Monitor.tla)
           hist,     \* schedule so far (thread ids); observation only, hidden by VIEW
           last      \* events emitted by the last step; observation only, hidden by VIEW
 
-vars == <<sid, hw, hr, th, kf, val, pflag, mon, hist, last>>
+vars == <<sid, hw, hr, th, kf, val, pflag, killed, nops, mon, hist, last>>
 
 Threads(d) == 1..d.nt
 
@@ -84,7 +86,8 @@ AdvA(d, fr) ==
        ELSE LET n == NextEntry(E, fr.i, fr.fi) IN
             IF n = 0 THEN <<>> ELSE <<[fr EXCEPT !.i = n, !.j = 1]>>
 
-UFrame(ls, m, why) == IF ls = <<>> THEN <<>> ELSE <<[k |-> "U", ls |-> ls, m |-> m, i |-> 1, why |-> why]>>
+UFrameC(ls, m, why, ctx) == IF ls = <<>> THEN <<>> ELSE <<[k |-> "U", ls |-> ls, m |-> m, i |-> 1, why |-> why, ctx |-> ctx]>>
+UFrame(ls, m, why) == UFrameC(ls, m, why, <<>>)
 
 \* the leaves released by the code when the try at (i, j) fails
 \*   - the unit's own rollback  (ordered_try_*: `for lock in &locks[0..j]`)
@@ -121,11 +124,10 @@ FailTail == <<[k |-> "ret", res |-> "wouldblock"], Fin(TRUE, FALSE)>>
 
 \* items executed when a guard of collection c is dropped (PoisonRef::drop sets
 \* the flag only while the thread is panicking)
-GuardDrop(d, c, m, panicking) ==
-  IF ~panicking THEN UFrame(d.C[c].decl, m, "guard-drop")
-  ELSE Flatten([i \in 1..Len(d.C[c].gplan) |->
-         LET sg == d.C[c].gplan[i] IN
-         (IF sg.p # 0 THEN <<[k |-> "setp", p |-> sg.p]>> ELSE <<>>) \o UFrame(sg.ls, m, "guard-drop-unwinding")])
+GuardDrop(d, c, m) ==
+  Flatten([i \in 1..Len(d.C[c].gplan) |->
+     LET sg == d.C[c].gplan[i] IN
+     (IF sg.p # 0 THEN <<[k |-> "setp?", p |-> sg.p]>> ELSE <<>>) \o UFrame(sg.ls, m, "guard-drop")])
 
 \* what the code does when user code panics inside call ca
 UnwindPlan(d, ca) ==
@@ -134,7 +136,7 @@ UnwindPlan(d, ca) ==
   THEN (IF d.C[ca.c].kind = "pois" THEN <<[k |-> "setp", p |-> ca.c]>> ELSE <<>>)   \* Poisonable::scoped_*: own flag only
        \o UFrame(d.C[ca.c].flat, m, "scope-unwind")
        \o <<[k |-> "ret", res |-> "panicked"], Fin(ca.key = "lent", ca.key # "lent")>>
-  ELSE GuardDrop(d, ca.c, m, TRUE) \o <<[k |-> "ret", res |-> "panicked"], Fin(FALSE, TRUE)>>
+  ELSE GuardDrop(d, ca.c, m) \o <<[k |-> "ret", res |-> "panicked"], Fin(FALSE, TRUE)>>
 
 CallPlan(d, ca, ci) ==
   LET m   == ApiMode(ca.api)
@@ -145,7 +147,7 @@ CallPlan(d, ca, ci) ==
        \o UFrame(d.C[ca.c].flat, m, "scope-end")
        \o <<[k |-> "ret", res |-> "auto"], Fin(ca.key = "lent", ca.key # "lent")>>
   ELSE <<[k |-> "call", ci |-> ci]>> \o acq \o <<[k |-> "ret", res |-> "auto"]>> \o BodyPlan(d, ca.body)
-       \o (IF ca.rel = "forget" THEN <<>> ELSE GuardDrop(d, ca.c, m, FALSE))
+       \o (IF ca.rel = "forget" THEN <<>> ELSE GuardDrop(d, ca.c, m))
        \o <<Fin(ca.rel = "unlock", ca.rel = "drop")>>
 
 ItemPlan(d, t, pc) ==
@@ -153,6 +155,74 @@ ItemPlan(d, t, pc) ==
   CASE it.k = "call" -> CallPlan(d, it, pc)
     [] it.k = "op"   -> OpPlan(d, it.name, it.c)
     [] OTHER         -> <<[k |-> it.k]>>       \* probe, getkey, dropkey, forgetkey
+
+(***************************************************************************)
+(* Unwinding AS CODED when a raw lock operation panics (DESIGN.md App. B). *)
+(* The leaf is killed by Mutex/RwLock::raw_*'s own handle_unwind; then the *)
+(* enclosing handle_unwind handlers run.  Nothing here is idealised: the   *)
+(* release lists are exactly the ones the code computes from `locked`,     *)
+(* `first_index`, `&locks[0..i]`.                                          *)
+(***************************************************************************)
+\* value of retry.rs's / utils.rs's `locked` counter when entry i is being tried
+LockedAt(alg, fi, i) == IF alg = "retry" THEN Cardinality({k \in 1..(i - 1) : k # fi}) ELSE i - 1
+
+\* releases issued by the handlers around an acquisition frame whose pending op panics
+HandlersA(d, fr) ==
+  LET E == d.C[fr.c].E IN
+  IF fr.ph = "first"
+  THEN \* the owned unit's ordered_* handler, then retry's handler with locked = 0: it
+       \* releases locks[first_index] although the blocking acquisition did not return
+       UFrame(SubSeq(E[fr.fi], 1, fr.j - 1), fr.m, "recover") \o UFrame(E[fr.fi], fr.m, "recover")
+  ELSE LET inner == SubSeq(E[fr.i], 1, fr.j - 1)
+           L     == LockedAt(fr.alg, fr.fi, fr.i)
+           outer == Flatten([k \in 1..L |-> E[k]])
+           first == IF fr.alg = "retry" /\ fr.fi > L THEN E[fr.fi] ELSE <<>>
+       IN UFrame(inner, fr.m, "recover") \o UFrame(outer, fr.m, "recover") \o UFrame(first, fr.m, "recover")
+
+\* a release of a rollback loop panics at position it.i of it.ls = inner \o outer \o first
+RollbackCtx(d, fr) == [alg |-> fr.alg, c |-> fr.c, fi |-> fr.fi, ei |-> fr.i, ej |-> fr.j]
+HandlersU(d, it) ==
+  LET cx    == it.ctx
+      E     == d.C[cx.c].E
+      inner == SubSeq(E[cx.ei], 1, cx.ej - 1)
+      olist == Flatten([k \in 1..(cx.ei - 1) |-> E[k]])
+      L     == LockedAt(cx.alg, cx.fi, cx.ei)
+      outer == Flatten([k \in 1..L |-> E[k]])
+      first == IF cx.alg = "retry" /\ cx.fi > L THEN E[cx.fi] ELSE <<>>
+      again == UFrame(outer, it.m, "recover") \o UFrame(first, it.m, "recover")
+  IN IF it.i <= Len(inner) THEN UFrame(inner, it.m, "recover") \o again ELSE again
+\* attempt_to_recover_*'s own handler "poisons what remains": it kills every lock of its list
+KillAllU(d, it) ==
+  LET cx    == it.ctx
+      E     == d.C[cx.c].E
+      inner == SubSeq(E[cx.ei], 1, cx.ej - 1)
+      olist == Flatten([k \in 1..(cx.ei - 1) |-> E[k]])
+  IN IF cx.alg \in {"retry", "retrytry"} /\ it.i > Len(inner) /\ it.i <= Len(inner) + Len(olist)
+     THEN SeqRange(olist) ELSE {}
+
+PanicTail(ca, res) ==
+  IF ApiScoped(ca.api) THEN <<[k |-> "ret", res |-> res], Fin(ca.key = "lent", ca.key # "lent")>>
+  ELSE <<[k |-> "ret", res |-> res], Fin(FALSE, TRUE)>>
+
+\* continuation after the pending raw operation of the head item `it` panicked
+FaultTodo(d, ca, it, rest) ==
+  CASE it.k = "A" -> HandlersA(d, it) \o PanicTail(ca, "rawpanicked")
+    [] it.k = "U" /\ it.why = "rollback" -> HandlersU(d, it) \o PanicTail(ca, "rawpanicked")
+    [] it.k = "U" /\ it.why = "guard-drop" ->
+         \* a guard's Drop panicked: the remaining guards (and the key) are still dropped while unwinding
+         (IF it.i < Len(it.ls) THEN <<[it EXCEPT !.i = @ + 1]>> ELSE <<>>)
+         \o SubSeq(rest, 1, Len(rest) - 1) \o PanicTail(ca, "rawpanicked")
+    [] OTHER -> \* collection.raw_unlock_*() at the end of a scoped call: a plain loop, nothing else is released
+         PanicTail(ca, "rawpanicked")
+
+\* continuation when a try fails (or finds a killed lock)
+FailTodo(d, it, rest) ==
+  UFrameC(Rollback(d, it), it.m, "rollback", RollbackCtx(d, it))
+  \o (IF it.alg = "retry" THEN RetryRound(d, it.c, it.m, it.i) \o rest ELSE FailTail)
+
+FaultHit(d, n, l, op) ==
+  \/ d.faults.k = "oneshot" /\ d.faults.at = n
+  \/ d.faults.k = "persist" /\ d.faults.l = l /\ op \in SeqRange(d.faults.ops)
 
 (***************************************************************************)
 (* Thread-local execution up to the next visible item                      *)
@@ -177,7 +247,13 @@ Run(d, t, S) ==
   ELSE
   LET it == Head(S.todo)
       rest == Tail(S.todo) IN
-  IF Visible(it)
+  IF it.k = "A" /\ S.kd[PendingA(d, it).l]
+  THEN \* a killed lock: raw_try_* returns false, raw_write/raw_read panic ("has been killed"), both without a raw operation
+       IF PendingA(d, it).op = "try" THEN Run(d, t, [S EXCEPT !.todo = FailTodo(d, it, rest)])
+       ELSE Run(d, t, [S EXCEPT !.pk = TRUE, !.todo = HandlersA(d, it) \o PanicTail(CurCall(d, t, S), "libpanic")])
+  ELSE IF it.k = "G" /\ it.ph = "try" /\ S.kd[it.ls[it.i]]
+  THEN Run(d, t, [S EXCEPT !.todo = (IF it.i < Len(it.ls) THEN <<[it EXCEPT !.i = @ + 1]>> ELSE <<>>) \o rest])
+  ELSE IF Visible(it)
   THEN IF it.k = "A" /\ PendingA(d, it).op = "lock"
        THEN [S EXCEPT !.evs = Append(@, [e |-> "req", t |-> t, l |-> PendingA(d, it).l, m |-> it.m])]
        ELSE S
@@ -216,12 +292,14 @@ Run(d, t, S) ==
                       !.evs = Append(@, [e |-> "acc", t |-> t, ci |-> S.pc, pos |-> it.pos, m |-> it.m,
                                          lid |-> l, seen |-> S.val[l], wrote |-> nv])])
     [] it.k = "panic" ->
-         Run(d, t, [S EXCEPT !.todo = UnwindPlan(d, CurCall(d, t, S)),
+         Run(d, t, [S EXCEPT !.pk = TRUE, !.todo = UnwindPlan(d, CurCall(d, t, S)),
                       !.evs = Append(@, [e |-> "panic", t |-> t, ci |-> S.pc])])
     [] it.k = "setp" ->
          Run(d, t, [S EXCEPT !.todo = rest, !.pf[it.p] = TRUE])
+    [] it.k = "setp?" ->    \* PoisonRef::drop: `if std::thread::panicking() { flag.poison() }`
+         Run(d, t, [S EXCEPT !.todo = rest, !.pf[it.p] = (S.pf[it.p] \/ S.pk)])
     [] it.k = "fin" ->
-         Run(d, t, [S EXCEPT !.todo = rest,
+         Run(d, t, [S EXCEPT !.todo = rest, !.pk = FALSE,
                       !.kl = IF it.keyback THEN "user" ELSE "none",
                       !.kf = IF it.dropkey THEN FALSE ELSE S.kf,
                       !.evs = Append(@, [e |-> "fin", t |-> t, ci |-> S.pc, keyback |-> it.keyback])])
@@ -262,14 +340,34 @@ StepEnabled(d, t) ==
      it.k = "A" /\ PendingA(d, it).op = "lock"
        => EnvFree(d, hw, hr, PendW(d), PendingA(d, it).l, it.m, t)
 
-LocalOf(t) == [todo |-> th[t].todo, pc |-> th[t].pc, kl |-> th[t].kl, fin |-> th[t].fin, ps |-> th[t].ps,
-               kf |-> kf[t], val |-> val, pf |-> pflag, evs |-> <<>>]
+LocalOf(t) == [todo |-> th[t].todo, pc |-> th[t].pc, kl |-> th[t].kl, fin |-> th[t].fin, ps |-> th[t].ps, pk |-> th[t].pk,
+               kf |-> kf[t], val |-> val, pf |-> pflag, kd |-> killed, evs |-> <<>>]
 
 \* result: [hw, hr, S]   (S as for Run, S.evs the events of the step)
+RawOpOf(d, it) ==    \* [l, m, op] of the raw lock operation the head item is parked at
+  CASE it.k = "A" -> [l |-> PendingA(d, it).l, m |-> it.m, op |-> PendingA(d, it).op]
+    [] it.k = "U" -> [l |-> it.ls[it.i], m |-> it.m, op |-> "unlock"]
+    [] it.k = "G" -> [l |-> it.ls[it.i], m |-> IF d.lk[it.ls[it.i]] = "M" THEN "w" ELSE "r",
+                      op |-> IF it.ph = "try" THEN "try" ELSE "unlock"]
+
 StepOf(d, t) ==
   LET S0   == LocalOf(t)
       it   == Head(S0.todo)
-      rest == Tail(S0.todo) IN
+      rest == Tail(S0.todo)
+      raw  == it.k \in {"A", "U", "G"}
+      n1   == IF raw /\ d.faults.k = "oneshot" THEN nops + 1 ELSE nops IN
+  IF raw /\ it.k # "G" /\ th[t].pc > 0 /\ d.progs[t][th[t].pc].k = "call"
+     /\ FaultHit(d, n1, RawOpOf(d, it).l, RawOpOf(d, it).op)
+  THEN \* injected fault: the operation has no effect and panics; the lock is killed
+       LET ro == RawOpOf(d, it)
+           kl2 == [l \in DOMAIN killed |-> killed[l] \/ l = ro.l
+                      \/ (it.k = "U" /\ it.why = "rollback" /\ l \in KillAllU(d, it))] IN
+       [hw |-> hw, hr |-> hr, nops |-> n1,
+        S |-> Run(d, t, [S0 EXCEPT !.pk = TRUE, !.kd = kl2,
+                           !.todo = FaultTodo(d, d.progs[t][th[t].pc], it, rest),
+                           !.evs = <<[e |-> "rawpanic", t |-> t, l |-> ro.l, m |-> ro.m, op |-> ro.op]>>])]
+  ELSE
+  [nops |-> n1] @@
   CASE it.k = "start" ->
          [hw |-> hw, hr |-> hr,
           S |-> Run(d, t, [S0 EXCEPT !.todo = rest, !.evs = <<[e |-> "start", t |-> t]>>])]
@@ -312,14 +410,13 @@ StepOf(d, t) ==
                                    !.evs = <<[e |-> "try", t |-> t, l |-> p.l, m |-> p.m, ok |-> TRUE]>>])]
          ELSE [hw |-> hw, hr |-> hr,
                S  |-> Run(d, t, [S0 EXCEPT
-                        !.todo = UFrame(Rollback(d, it), it.m, "rollback")
-                                 \o (IF it.alg = "retry" THEN RetryRound(d, it.c, it.m, it.i) \o rest ELSE FailTail),
+                        !.todo = FailTodo(d, it, rest),
                         !.evs = <<[e |-> "try", t |-> t, l |-> p.l, m |-> p.m, ok |-> FALSE]>>])]
 
 (***************************************************************************)
 (* Specification                                                           *)
 (***************************************************************************)
-InitTh(d) == [t \in Threads(d) |-> [todo |-> <<[k |-> "start"]>>, pc |-> 0, kl |-> "none", fin |-> FALSE, ps |-> <<>>]]
+InitTh(d) == [t \in Threads(d) |-> [todo |-> <<[k |-> "start"]>>, pc |-> 0, kl |-> "none", fin |-> FALSE, ps |-> <<>>, pk |-> FALSE]]
 
 InitFor(s) ==
   LET d == D(s) IN
@@ -330,6 +427,8 @@ InitFor(s) ==
   /\ kf = [t \in Threads(d) |-> FALSE]
   /\ val = [l \in 1..d.nl |-> 0]
   /\ pflag = [c \in 1..d.nc |-> FALSE]
+  /\ killed = [l \in 1..d.nl |-> FALSE]
+  /\ nops = 0
   /\ mon = MonInit(s)
   /\ hist = <<>>
   /\ last = <<>>
@@ -339,10 +438,12 @@ Init == \E s \in 1..Len(ScenTab) : InitFor(s)
 Apply(d, t, ns) ==
   /\ hw' = ns.hw
   /\ hr' = ns.hr
-  /\ th' = [th EXCEPT ![t] = [todo |-> ns.S.todo, pc |-> ns.S.pc, kl |-> ns.S.kl, fin |-> ns.S.fin, ps |-> ns.S.ps]]
+  /\ th' = [th EXCEPT ![t] = [todo |-> ns.S.todo, pc |-> ns.S.pc, kl |-> ns.S.kl, fin |-> ns.S.fin, ps |-> ns.S.ps, pk |-> ns.S.pk]]
   /\ kf' = [kf EXCEPT ![t] = ns.S.kf]
   /\ val' = ns.S.val
   /\ pflag' = ns.S.pf
+  /\ killed' = ns.S.kd
+  /\ nops' = ns.nops
 
 Step(t) ==
   LET d == D(sid) IN
@@ -362,7 +463,7 @@ Finish ==
   /\ AllDone /\ ~mon.ended
   /\ mon' = MonStep(mon, [e |-> "end"])
   /\ last' = <<[e |-> "end"]>>
-  /\ UNCHANGED <<sid, hw, hr, th, kf, val, pflag, hist>>
+  /\ UNCHANGED <<sid, hw, hr, th, kf, val, pflag, killed, nops, hist>>
 
 Next == (\E t \in 1..D(sid).nt : Step(t)) \/ Finish
 
@@ -383,7 +484,7 @@ NoViolation == \A v \in mon.viol : (v.p \o "|" \o v.s) \in KnownSigs
 \* (waiting for a lock whose guard was leaked on purpose is not a deadlock of happylock)
 NotStuck    == ~(ModelStuck /\ mon.leaked = {})
 
-View == <<sid, hw, hr, th, kf, val, pflag, mon>>
+View == <<sid, hw, hr, th, kf, val, pflag, killed, nops, mon>>
 EvAlias == [last |-> last, hist |-> hist]
 NotEnded == ~mon.ended
 =============================================================================
